@@ -250,6 +250,9 @@ def make_workchain(outline, behaviour):
         namespace['st_' + step] = _make_step(step)
     for pred in preds:
         namespace['pr_' + pred] = _make_pred(pred)
+    if behaviour.get('stepper_key'):
+        # a chain class that files the position in its outline under a key of its own (the class attribute is the hook)
+        namespace['_STEPPER_STATE'] = behaviour['stepper_key']
     cls = type(name, (WcBase,), namespace)
     setattr(gen_classes, name, cls)
     return cls
